@@ -328,7 +328,13 @@ def op_select_subnet(net, g):
 
 def op_merge_nets(net, g):
     seed2 = int(g.rng.integers(0, 2 ** 31))
-    tag = "M%d" % net.get("_pv_merge_count", 0)
+    # a tag that no row of the current net carries (select_subnet does not keep private counters of the net)
+    used = {str(u).split(":")[0] for k in net.keys() if isinstance(net[k], pd.DataFrame) and refwalk.UID in net[k].columns
+            for u in net[k][refwalk.UID].values}
+    n_tag = net.get("_pv_merge_count", 0)
+    while "M%d" % n_tag in used:
+        n_tag += 1
+    tag = "M%d" % n_tag
     other, _ = richnet.rich_net(seed2, tag=tag, small=True)
     kw = dict(validate=False, merge_results=g.B(0.6), std_prio_on_net1=g.B(0.7), net2_reindex_log_level=None)
     other_first = g.B(0.3)
@@ -336,7 +342,7 @@ def op_merge_nets(net, g):
     rel_union = dict(refwalk.relations(a))
     rel_union.update(refwalk.relations(b))
     new = tb.merge_nets(a, b, **kw)
-    new["_pv_merge_count"] = net.get("_pv_merge_count", 0) + 1
+    new["_pv_merge_count"] = n_tag + 1
     new["_pv_uid_count"] = max(net.get("_pv_uid_count", 0), other.get("_pv_uid_count", 0))
     return new, dict(op="merge_nets", seed2=seed2, kw=kw, other_first=other_first, _rel_union=rel_union, _inputs=(a, b))
 
